@@ -251,7 +251,16 @@ Consume(ws0, v, j) ==
             ELSE IF v.from = <<>> /\ x.from # <<>> /\ x.ck \in ws.seenCk THEN Bad(w1, {"C11"}, MissingFrom(ws, x))
             ELSE IF HasBit(x.op, OpRename) /\ x.ck # 0 THEN [w1 EXCEPT !.seenCk = @ \cup {x.ck}]
             ELSE w1
-      w3 == IF x.sup THEN Bad(w2, {"C09", "C02"}, "remove_reported_although_parent_listed") ELSE w2
+      \* (... and if the parent's own Remove was passed over, this one may as well be that Remove, out of order)
+      w3a == IF x.sup THEN Bad(w2, {"C09", "C02"} \cup (IF \E q \in 1..Len(w2.skipped) : Match(w2.skipped[q], v) THEN {"C03"} ELSE {}),
+                              "remove_reported_although_parent_listed") ELSE w2
+      \* "the Create of a name precedes the Write, Chmod and Remove events of that same incarnation of the name": an owed
+      \* Create that was passed over, no other Create / Remove / Rename of the name between it and this entry
+      pcs == IF HasBit(x.op, OpCreate) THEN {} ELSE
+             {q \in 1..Len(w3a.skipped) : /\ w3a.skipped[q].name = x.name /\ HasBit(w3a.skipped[q].op, OpCreate) /\ w3a.skipped[q].seq < x.seq
+                                          /\ ~\E k \in 1..(j - 1) : /\ ws.exp[k].name = x.name /\ ws.exp[k].seq > w3a.skipped[q].seq
+                                                                    /\ (HasBit(ws.exp[k].op, OpCreate) \/ HasBit(ws.exp[k].op, OpRemove) \/ HasBit(ws.exp[k].op, OpRename))}
+      w3 == IF pcs # {} THEN Bad(w3a, {"C03", "C01"}, "before_its_create:" \o OpName(x.op)) ELSE w3a
       w4 == CloseLag(w3, x.seq)
   IN IF x.from # <<>> THEN Note(w4, "rename_pair") ELSE w4
 
@@ -320,7 +329,9 @@ Settle(ws) ==
             THEN Bad(ws, {"C01"} \cup (IF lost[1].ino \in DOMAIN ws.uw /\ (ws.uw[lost[1].ino].st # "live" \/ ws.uw[lost[1].ino].path \in ws.readded)
                                        THEN {"C09"} ELSE {})
                              \cup (IF lost[1].ino \in ws.uoInos THEN {"C09"} ELSE {})  \* the watch is kept until the last descriptor is closed
-                             \cup (IF ws.ovf THEN {"C10"} ELSE {}),      \* after an overflow the watcher must keep delivering
+                             \cup (IF ws.ovf THEN {"C10"} ELSE {})       \* after an overflow the watcher must keep delivering
+                             \* "Rename of the old name immediately followed by Create of the new name": the Rename came, the Create never did
+                             \cup (IF \E q \in 1..Len(lost) : HasBit(lost[q].op, OpCreate) /\ lost[q].ck # 0 /\ lost[q].ck \in ws.seenCk THEN {"C03"} ELSE {}),
                      "lost:" \o OpName(lost[1].op) \o (IF "parent_listed_but_silent" \in ws.flags /\ HasBit(lost[1].op, OpRemove)
                                                        THEN ":parent_listed_but_silent" ELSE "")) ELSE ws
       w2 == IF drop /\ ws.gotOvf = 0 /\ ws.phase = "open" /\ ~ws.fog
